@@ -1135,6 +1135,10 @@ impl LineBuf {
 		Some((start,end))
 	}
 	pub fn select_lines_down(&mut self, n: usize) -> Option<(usize,usize)> {
+		if n == 0 {
+			// Just this line: that works on the last line too
+			return Some(self.this_line())
+		}
 		if self.end_of_line() == self.cursor.max {
 			return None
 		}
